@@ -347,6 +347,10 @@ def build_jobs(ctx, thorough):
         for k in range(n):
             inst, frames = random_script(ctx.rng, gen, length)
             hs = C.handshake(gen, inst)
+            if k % 3 == 1:
+                # the console sends its (unchanged) names answer once more, early in the session - somebody opened the names page on the touch
+                # screen: the reports that follow still reach the entities the object model shows
+                frames = frames[:5] + [hs[3]] + frames[5:]
             jobs.append((gen, "random-%d" % k, hs + ["view"] + with_views(frames), len(hs)))
         # a second session on the same object: shutdown(), then init() against a console describing ANOTHER installation
         for k in range(24 if thorough else 6):
